@@ -1,4 +1,5 @@
 import CJ.Model.Covert
+import CJ.Model.Config
 import CJ.Drv.Util
 /-! Driver for the covert-admission model.
 
@@ -14,7 +15,16 @@ import CJ.Drv.Util
 
 **Several workers for one key, interleaved**
 `csched|<enableAllow>|<schedule: worker digits>|<check order: worker digits>|W|<the 8 per-worker fields>|W|…`
-→ `<stored covert hex or ->|<valid>|<index of the worker whose object is stored or ->` -/
+→ `<stored covert hex or ->|<valid>|<index of the worker whose object is stored or ->`
+
+**One covert string after a sequence of configuration reloads**
+`creload|<event>;<event>;…|P|<enableAllow>|<the 8 per-worker fields>|P|…`
+* event: `<conf o/e/p>,<sel o/e>,<geo o/m/e>` — what the three loading steps of one SIGHUP answered
+* one `P` group per configuration, start-up first (index 0), then one per reload: the answers of the library
+  about the covert string under the lists of *that* configuration (groups of configurations that did not load
+  are carried but never consulted)
+→ `p<i>|<outhex>|<lookup>`: index of the configuration whose policy the reload model (`CJ.Config.reloads`) leaves
+  in force, and the admission decision under that policy; `panic` if a configuration load panicked -/
 namespace CJ.Drv.Covert
 open CJ.Covert CJ.Drv
 
@@ -143,6 +153,37 @@ def handleSched (args : List String) : Option String :=
     let w := runSched env pol inp rs (World.init (fun i => "<raw " ++ toString i ++ ">") 0) sch
     let ptr := match w.store with | some e => toString e.ptr | none => "-"
     some (showStore w ++ "|" ++ ptr)
+  | _ => none
+
+def parseReloadEvent (i : Nat) (s : String) : Option (CJ.Config.Outcome Nat × Option Nat × CJ.Config.GeoLoad Nat) :=
+  match s.splitOn "," with
+  | [c, sl, g] => do
+    let conf ← (if c == "o" then some (CJ.Config.Outcome.ok i) else if c == "e" then some .err else if c == "p" then some .panic else none)
+    let sel ← (if sl == "o" then some (some i) else if sl == "e" then some none else none)
+    let geo ← (if g == "o" then some (CJ.Config.GeoLoad.ok i) else if g == "m" then some (.missing i) else if g == "e" then some .err else none)
+    some (conf, sel, geo)
+  | _ => none
+
+def handleReload (args : List String) : Option String :=
+  match args with
+  | evs :: rest => do
+    let evs ← ((fields evs ";").zipIdx.mapM fun (s, i) => parseReloadEvent (i + 1) s)
+    let groups := (rest.splitBy (fun _ b => b != "P")).map (·.drop 1)
+    if groups.length != evs.length + 1 then none else
+    -- every group must be well-formed, consulted or not
+    let parsed ← groups.mapM fun g =>
+      match g with
+      | ea :: f => do
+        let w0 ← parseWorker 0 f
+        let (env, pol) ← mkEnv [w0] (← parseBool ea)
+        some (env, pol, w0)
+      | [] => none
+    match CJ.Config.reloads (⟨0, 0, 0⟩ : CJ.Config.Station Nat Nat Nat) evs with
+    | .ok st => do
+      let (env, pol, w0) ← parsed[st.policy]?
+      let r := parseOrResolve env pol w0.ans (fun _ => w0.res) 0
+      some s!"p{st.policy}|{stringToHex r.out}|{showBool r.lookup}"
+    | _ => some "panic"
   | _ => none
 
 end CJ.Drv.Covert
